@@ -43,6 +43,24 @@ func c17LitOutcome(o Outcome) string {
 }
 
 func genC17(c *Ctx) {
+	// ---------- small literals after a history of other values in this process (negative ints, floats, strs made by
+	// arithmetic): a literal has its mathematical value whatever was computed before
+	if c.Shard == 0 || c.Shards <= 1 {
+		hist := "a := (1:300)@{|k| 0 - k}\nb := [3 <=> 5, 1.5 * 2, \"x\" + \"y\", 0 - 256, 255 - 511]\n[a.len, b.len]\n"
+		h := c.It.Run(hist, "")
+		c.Em.Emit(Rec{Src: hist, Impl: h.Canon(), NT: true, Tags: []string{"literal-history"}})
+		for v := 0; v <= 600; v++ {
+			for _, form := range []string{"%d", "0x%x", "0o%o", "0b%b", "%de0"} {
+				src := fmt.Sprintf(form, v)
+				o := c.It.Run(src, "")
+				rec := Rec{Src: src, Impl: o.Canon(), NT: true, Tags: []string{"literal-history"}}
+				if iv, ok := o.Obj.(*object.PanInt); !ok || o.Kind != "val" || iv.Value != int64(v) {
+					rec.Oracle = fmt.Sprintf("the literal %s evaluates to %s (after negative ints were computed in this process)", src, o.Canon())
+				}
+				c.Em.Emit(rec)
+			}
+		}
+	}
 	// ---------- integer literals in four bases
 	bases := []struct {
 		base   int
@@ -228,6 +246,13 @@ func genC17(c *Ctx) {
 	for _, k := range kws {
 		names = append(names, k, k+"fy", k+"s", k+"_x", k+"1", k+"?", k+"!", k+"If", strings.ToUpper(k), "x"+k, k+k)
 	}
+	// every character of the pattern occurs in a non-initial position (and every letter initially)
+	for _, ch := range "abcdefghijklmnopqrstuvwxyzABCDEFGHIJKLMNOPQRSTUVWXYZ0123456789_" {
+		names = append(names, "x"+string(ch), "q"+string(ch)+"z?")
+		if (ch < '0' || ch > '9') && ch != '_' {
+			names = append(names, string(ch)+"w")
+		}
+	}
 	alpha := "abcdefghijklmnopqrstuvwxyzABCDEFGHIJKLMNOPQRSTUVWXYZ"
 	rest := alpha + "0123456789_"
 	for i := 0; i < n/2; i++ {
@@ -274,6 +299,20 @@ func genC17(c *Ctx) {
 		asSym := false
 		if st, ok := s.Obj.(*object.PanStr); ok && s.Kind == "val" && st.Value == name {
 			asSym = true
+		}
+		if asVar && asProp && asSym {
+			// "works as a property and symbol" in full: the property is listed under its name (publicly unless the name
+			// starts with `_`), can be indexed by the symbol, the symbol says it is one and can be called as an accessor
+			want := fmt.Sprintf("[[%q], 7, true, 7]", name)
+			if strings.HasPrefix(name, "_") {
+				want = fmt.Sprintf("[[], 7, true, 7]")
+			}
+			u := c.It.Run(fmt.Sprintf("o := {%s: 7}\n[o.keys, o['%s], '%s.sym?, '%s(o)]", name, name, name, name), "")
+			if u.Kind != "val" || u.Inspect != want {
+				asProp, asSym = false, false
+				c.Em.Emit(Rec{Src: "name " + name, Impl: u.Canon(), NT: true, Tags: []string{"name-uses"},
+					Oracle: fmt.Sprintf("name %s does not work as a property and symbol in full: [o.keys, o['%s], '%s.sym?, '%s(o)] gives %s %s, expected %s", name, name, name, name, u.Canon(), u.ErrMsg, want)})
+			}
 		}
 		impl := fmt.Sprintf("var=%v prop=%v sym=%v", asVar, asProp, asSym)
 		switch {
